@@ -709,6 +709,10 @@ def extendPre (env : Env) (child base : Spec) : R Pre :=
     match base? with
     | none => .error .type
     | some b =>
+      -- the candidate resolved in a Union base is subject to the frozen-base guard as well (F292 repair)
+      if base.isUnion && !child.isUnion && b.flags.frozen &&
+          (!cf.frozen || !Val.pyEq cf.default b.flags.default) then .error .type
+      else
       if !(child.kind == b.kind || child.kind == .enum) then .error .type                   -- 234
       else if !b.flags.noneable && cf.noneable then .error .type                            -- 236
       else .ok (.go b)
